@@ -195,6 +195,7 @@ struct FindCtx {
     std::vector<const Elem *> offered;
     size_t accept_at;       // 1-based; 0 = reject all
     bool bad_live, bad_key, dup;
+    int accept_val = 1;     // any non-zero value identifies the desired object
 };
 int find_visit(const void *e, void *p)
 {
@@ -205,7 +206,7 @@ int find_visit(const void *e, void *p)
     for (const Elem *x : c->offered) if (x == e) c->dup = true;
     c->offered.push_back((const Elem *)e);
     if (c->offered.size() > c->t->n + 2) return 1;     // cannot hang
-    return c->accept_at && c->offered.size() == c->accept_at ? 1 : 0;
+    return c->accept_at && c->offered.size() == c->accept_at ? c->accept_val : 0;
 }
 
 struct EachCtx {
@@ -441,6 +442,14 @@ bool apply(int op, uint8_t a, uint8_t b, uint8_t c, int ntab, size_t K, size_t m
         if (grows_cap && failed) {
             // cannot be satisfied: quietly nothing
             CNT("class.resize.alloc_failed");
+            if (t.has_buckets) {
+                float ld;
+                LIB(ld = cstl_hash_load(&t.h));
+                float want = (float)t.n / (float)t.tgt_n;
+                CHECK(std::fabs(ld - want) <= 1e-6f * std::fabs(want), "C16.hash.resize.unchanged",
+                      "%s load %g after a resize to %zu buckets that could not be satisfied, expected the unchanged %g (%zu elements, %zu buckets)",
+                      t.tag, ld, n, want, t.n, t.tgt_n);
+            }
             break;
         }
         if (grows_cap) t.cap = n;
@@ -493,10 +502,9 @@ bool apply(int op, uint8_t a, uint8_t b, uint8_t c, int ntab, size_t K, size_t m
         bool failed = alloc_failures() != f0;
         TRACE("%s shrink_to_fit%s", t.tag, failed ? " [allocation failed]" : "");
         if (will) {
+            // (whether releasing the excess also completes a pending rehash is not documented: any hash calls must be
+            // relocations into the requested geometry, and a completion shows up at the next keyed operation)
             c19_forced(t);
-            t.pending = false;
-            t.cur_n = t.tgt_n;
-            t.cur_f = t.tgt_f;
             if (!failed) t.cap = t.tgt_n;
             else CNT("class.shrink.alloc_failed");
         }
@@ -536,6 +544,8 @@ bool apply(int op, uint8_t a, uint8_t b, uint8_t c, int ntab, size_t K, size_t m
         size_t cnt = t.model.count(k) ? t.model[k].size() : 0;
         size_t acc = (c & 1) ? 0 : (cnt ? 1 + (c >> 1) % cnt : 1);
         FindCtx fc{&t, k, {}, acc, false, false, false};
+        static const int ACCEPT[] = {1, -5, 1 << 30, 2, -2147483647 - 1, 256, -1, 65536};
+        fc.accept_val = ACCEPT[(c >> 4) % 8];
         void *r;
         LIB(r = cstl_hash_find(&t.h, k, find_visit, &fc));
         TRACE("%s find k%zu visitor=%s -> offered %zu, %s", t.tag, k, acc ? "accept-nth" : "reject-all", fc.offered.size(), r ? "elem" : "NULL");
@@ -574,8 +584,16 @@ bool apply(int op, uint8_t a, uint8_t b, uint8_t c, int ntab, size_t K, size_t m
         break;
     }
     case ERASE_ABSENT: {
-        if (P.graveyard.empty()) { CNT("noop.erase_absent"); TRACE("%s erase_absent noop", t.tag); return false; }
-        Elem *e = P.graveyard[b % P.graveyard.size()];
+        Elem *e = nullptr;
+        if (ntab == 2 && (c & 1) && T[(a + 1) % ntab].n > 0) {
+            // an object that is live, but in the other table (only its key field is read to pick the bucket to search)
+            Table &o = T[(a + 1) % ntab];
+            size_t idx = (size_t)b % o.n;
+            for (auto &kv : o.model) { if (idx < kv.second.size()) { e = kv.second[idx]; break; } idx -= kv.second.size(); }
+            CNT("class.erase_absent.other_table");
+        }
+        if (!e && P.graveyard.empty()) { CNT("noop.erase_absent"); TRACE("%s erase_absent noop", t.tag); return false; }
+        if (!e) e = P.graveyard[b % P.graveyard.size()];
         // its node still carries the key it had (the library reads it to pick the bucket)
         size_t k = e->hn.key;
         LIB(cstl_hash_erase(&t.h, e));
@@ -640,13 +658,22 @@ bool apply(int op, uint8_t a, uint8_t b, uint8_t c, int ntab, size_t K, size_t m
         std::vector<Elem *> before;
         for (auto &kv : t.model) for (Elem *e : kv.second) before.push_back(e);
         size_t expect_erased = 0;
-        for (Elem *e : before) if ((mask >> (e->id % 8)) & 1) expect_erased++;
+        std::vector<Elem *> keep;     // (ids are read now: erased elements are freed inside the callback)
+        for (Elem *e : before) { if ((mask >> (e->id % 8)) & 1) expect_erased++; else keep.push_back(e); }
         EachCtx ec{&t, {}, 0, 0, n0 + 1, false, false, mask};
         int rv;
         LIB(rv = cstl_hash_foreach(&t.h, each_erase_visit, &ec));
         TRACE("%s foreach erasing visited elements with mask %02x -> %d, %zu visits, %zu left", t.tag, mask, rv, ec.seen.size(), t.n);
         CHECK(!ec.foreign, "C04.visit.live", "%s foreach(erase) visited an object that is not a live element", t.tag);
         CHECK(!ec.overflow && ec.seen.size() == n0, "C04.visit.all", "%s foreach(erase) made %zu visits for %zu live elements", t.tag, ec.seen.size(), n0);
+        {
+            std::vector<Elem *> s2;
+            for (Elem *e : ec.seen) if (e) s2.push_back(e);
+            std::sort(s2.begin(), s2.end());
+            CHECK(std::adjacent_find(s2.begin(), s2.end()) == s2.end(), "C04.visit.once", "%s foreach(erase) visited an element it kept twice", t.tag);
+            for (Elem *e : keep) CHECK(std::binary_search(s2.begin(), s2.end(), e), "C04.visit.all", "%s foreach(erase) never visited a live element", t.tag);
+            CHECK(keep.size() == s2.size(), "C04.visit.all", "%s foreach(erase) visited %zu kept elements, %zu were live", t.tag, s2.size(), keep.size());
+        }
         CHECK(rv == 0, "C04.visit.ret", "%s foreach(erase) returned %d", t.tag, rv);
         CHECK(t.n == n0 - expect_erased, "C04.visit.erase", "%s foreach(erase) left %zu elements, expected %zu", t.tag, t.n, n0 - expect_erased);
         if (t.has_buckets) { t.pending = false; t.cur_n = t.tgt_n; t.cur_f = t.tgt_f; }
@@ -686,9 +713,11 @@ bool apply(int op, uint8_t a, uint8_t b, uint8_t c, int ntab, size_t K, size_t m
     return true;
 }
 
+bool g_applied;     // the last op was not a counted no-op
 void run_op(int op, uint8_t a, uint8_t b, uint8_t c, int ntab, size_t K, size_t maxlive)
 {
-    if (!cx.c17) { apply(op, a, b, c, ntab, K, maxlive); return; }
+    g_applied = true;
+    if (!cx.c17) { g_applied = apply(op, a, b, c, ntab, K, maxlive); return; }
     // C17(b): every library call may be the one that receives the out-of-range value
     bool ab = false;
     g_bad_delivered = false;
@@ -744,7 +773,19 @@ void vf_run(const uint8_t *data, size_t len)
     if (cx.c17) TRACE("the %llu-th hash call returns %s", (unsigned long long)g_bad_at, g_bad_kind == 0 ? "m" : g_bad_kind == 1 ? "m+1" : g_bad_kind == 2 ? "SIZE_MAX" : "a value >= 2^32 whose low word may be a valid index");
     size_t nops = 0;
     bool marked = false;
-    auto snapshot = [&]() { g_state.clear(); for (int i = 0; i < ntab; i++) g_state += peek_state(T[i]); };
+    auto snapshot = [&]() {
+        g_state.clear();
+        for (int i = 0; i < ntab; i++) {
+            g_state += peek_state(T[i]);
+            if (cx.c19) {
+                // the oracle's own memory is part of the state: how many keyed ops the pending rehash has had
+                char b[64];
+                size_t ks = T[i].keyed_since > T[i].B ? T[i].B + 1 : T[i].keyed_since;
+                snprintf(b, sizeof b, "~%d,%zu,%zu,%zu/%d", (int)T[i].pending, T[i].pending ? ks : 0, T[i].pending ? T[i].B : 0, T[i].tgt_n, T[i].tgt_f);
+                g_state += b;
+            }
+        }
+    };
     while (cur.remaining() >= 4 && !cx.aborted) {
         uint8_t o = cur.u8(), a = cur.u8(), b = cur.u8(), c = cur.u8();
         if (o == 0xFE) { if (g_want_state) { snapshot(); marked = true; } continue; }
@@ -760,7 +801,7 @@ void vf_run(const uint8_t *data, size_t len)
         uint64_t fh = g_faults_hit;
         if (cx.c16 && g_faults_hit && g_also_ours.empty()) g_also_ours = {"C03", "C04"};
         run_op(op, a, b, c, ntab, K, maxlive);
-        if (cx.fault_seen) cx.ops_after_fault++;
+        if (cx.fault_seen && g_applied) cx.ops_after_fault++;
         if (g_faults_hit != fh) cx.fault_seen = true;
     }
     if (g_want_state && !marked) snapshot();
@@ -849,10 +890,11 @@ bool vf_scope(const std::string &name, Scope &s)
     for (size_t i = 0; i < MAXLIVE[mi % 8] && i < 6; i++) s.alphabet.push_back({ERASE, 0, (uint8_t)i, 0});
     s.alphabet.push_back({REHASH, 0, 0, 0});
     s.alphabet.push_back({SHRINK, 0, 0, 0});
+    s.alphabet.push_back({ERASE_ABSENT, 0, 0, 0});
     // every reachable state additionally gets (results discarded for the state):
     std::string t = tr;
     if (t == "fc") s.trailer = {0xFE, 0, 0, 0, FOREACH_CONST, 0, 0, 0, FOREACH_CONST, 0, 0, 3};
-    else if (t == "fe") s.trailer = {0xFE, 0, 0, 0, FOREACH, 0, 0, 0};
+    else if (t == "fe") s.trailer = {0xFE, 0, 0, 0, FOREACH, 0, 0, 3, FOREACH, 0, 0, 0};
     else if (t == "fx") s.trailer = {0xFE, 0, 0, 0, FOREACH_ERASE, 0, 0x54, 1, AUDIT_ALL, 0, 0, 0};
     else if (t == "cl") s.trailer = {0xFE, 0, 0, 0, CLEAR, 0, 0, 0, RESIZE, 0, 1, 0, INS, 0, 1, 0, INS, 0, 0, 0, FIND, 0, 1, 0, AUDIT_ALL, 0, 0, 0};
     else s.trailer = {0xFE, 0, 0, 0, AUDIT_ALL, 0, 0, 0};
@@ -895,14 +937,16 @@ int engine_c17a(const std::string &mode, const std::string &outdir, const std::s
     double t0 = now_s();
     C17Stats st;
     g_cur.open(outdir + "/cur-c17a-" + tag + ".case");
-    // keys whose fractional part of phi*k is as large as float arithmetic can make it
+    // keys that the function under test itself sends closest to the top of the range (whatever constant and
+    // precision it uses): the candidates for a result that rounds up to the table size
     std::vector<size_t> hik;
     {
-        std::vector<std::pair<float, size_t>> best;
+        std::vector<std::pair<size_t, size_t>> best;
+        const size_t M = (size_t)1 << 24;
         for (size_t k = 1; k < (1u << 22); k++) {
-            float M = 1.61803398875f * k;
-            float fr = M - floorf(M);
-            if (fr > 0.99f) best.push_back({fr, k});
+            size_t r = cstl_hash_mul(k, M);
+            if (r >= M) { g_cur_op = "cstl_hash_mul"; verif_fail("C17.mul.range", "cstl_hash_mul(%zu, %zu) = %zu is not below the table size", k, M, r); }
+            if (r >= M - (M >> 9)) best.push_back({r, k});
         }
         std::sort(best.begin(), best.end());
         for (size_t i = 0; i < best.size() && i < 6; i++) hik.push_back(best[best.size() - 1 - i].second);
